@@ -88,7 +88,15 @@ static const Tmpl TEMPLATES[] = {
         for(size_t i = 1; i <= k; i++) app(o, B({0xa1, 3, 0x80, 1, 5}));
         return o; }},
     {"tree.xer", "Tree", SY_XER, [](size_t k) { Bytes o; apps(o, "<Tree>"); app(o, reps("<node><l>", k)); apps(o, "<leaf>5</leaf>"); app(o, reps("</l><r><leaf>5</leaf></r></node>", k)); apps(o, "</Tree>"); return o; }},
+    // unknown extension additions (skipped, not decoded): nesting inside what the decoder steps over
+    {"seq.ber-skip-indef", "Seq", SY_BER, [](size_t k) { Bytes o = B({0x30, 0x80, 0x80, 1, 0, 0xa5, 0}); app(o, rep(B({0xaf, 0x80}), k)); app(o, rep(B({0, 0}), k)); app(o, B({0, 0})); return o; }},
+    {"seq.ber-skip-mixed", "Seq", SY_BER, [](size_t k) { Bytes o = B({0x30, 0x80, 0x80, 1, 0, 0xa5, 0}); app(o, rep(B({0xaf, 0x80, 0x8e, 1, 7, 0xbf, 0x21, 0x80}), k)); app(o, rep(B({0, 0, 0, 0}), k)); app(o, B({0, 0})); return o; }},
+    {"seq.xer-skip", "Seq", SY_XER, [](size_t k) { Bytes o; apps(o, "<Seq><a>0</a><f></f>"); app(o, reps("<zz>", k)); app(o, reps("</zz>", k)); apps(o, "</Seq>"); return o; }},
+    {"set.ber-skip-indef", "Set", SY_BER, [](size_t k) { Bytes o = B({0x31, 0x80, 0x80, 1, 0, 0x83, 0}); app(o, rep(B({0xaf, 0x80}), k)); app(o, rep(B({0, 0}), k)); app(o, B({0, 0})); return o; }},
+    {"set.xer-skip", "Set", SY_XER, [](size_t k) { Bytes o; apps(o, "<Set><i>0</i><n/>"); app(o, reps("<zz>", k)); app(o, reps("</zz>", k)); apps(o, "</Set>"); return o; }},
+    {"ch.ber-skip-indef", "Ch", SY_BER, [](size_t k) { Bytes o = rep(B({0xaf, 0x80}), k); app(o, rep(B({0, 0}), k)); return o; }},
     // Sim2
+    {"any.ber-indef", "Any", SY_BER, [](size_t k) { Bytes o = B({0x30, 0x80, 2, 1, 0}); app(o, rep(B({0x30, 0x80}), k)); app(o, rep(B({0, 0}), k)); app(o, B({0, 0})); return o; }},
     {"deep.ber-indef", "Deep", SY_BER, [](size_t k) { Bytes o = rep(B({0xaa, 0x80, 0x30, 0x80, 0xab, 0x80}), k); app(o, B({0xaa, 0x80, 0x30, 0x80})); app(o, V_DEEP); app(o, B({0, 0, 0, 0}));
         Bytes post = B({0, 0}); app(post, V_DEEP); app(post, B({0, 0, 0, 0})); app(o, rep(post, k)); return o; }},
     {"ims.ber-nested-string", "ImS", SY_BER, [](size_t k) { Bytes o = B({0x30, 0x80, 0xa0, 0x80}); app(o, rep(B({0x24, 0x80}), k)); app(o, B({4, 1, 0x41})); app(o, rep(B({0, 0}), k)); app(o, B({0, 0}));
@@ -139,7 +147,7 @@ static void c15_init(bool) {
             void *st2 = nullptr; Bytes s2 = t.gen(2);
             DecResult r2 = decode_call(td, t.sy, &st2, s2.data(), s2.size());
             Fingerprint a = fingerprint(td, st), b = fingerprint(td, st2);
-            if(r2.code != RC_OK || (a == b && !strstr(t.name, "nested-string"))) ok = false;   // string segmentation nests without changing the value
+            if(r2.code != RC_OK || (a == b && !strstr(t.name, "nested-string") && !strstr(t.name, "-skip"))) ok = false;   // string segmentation nests without changing the value
             if(st2) free_struct(td, st2);
         }
         if(st && !r.aborted) free_struct(td, st);
